@@ -43,6 +43,7 @@ namespace
         bool stopping{false};
         long accepted{0};
         bool forced_expiry_with_pending{false};
+        bool stop_slept_over{false};
         std::string error;
         int timer_eval_count{0};
     };
@@ -179,6 +180,7 @@ namespace
                 world.stop_returned_step = vs::S().steps;
             });
         vs::S().on_expiry = [&](bool forced) {
+            if (forced && world.stop_returned_step != 0 && !world.stopping && !world.run_returned) world.stop_slept_over = true;
             if (forced && !world.stopping && !world.stop_requested && !world.run_returned && world.accepted > static_cast<long>(world.delivered.size()))
                 world.forced_expiry_with_pending = true;
         };
@@ -236,6 +238,7 @@ namespace
             if (v < last_v) { r.violation = "pushed values were delivered out of order"; return r; }
             last_v = v;
         }
+        if (world.stop_slept_over) { r.violation = "request_stop() had returned but the evaluation loop slept on until its wait slice expired (missed stop)"; return r; }
         if (world.forced_expiry_with_pending) { r.violation = "a pushed value was pending while the loop slept until its wait slice expired (missed wake-up)"; return r; }
         bool end_reached = false;
         {
